@@ -303,4 +303,156 @@ theorem inv_request (c : Cfg) (hc : c.sites.Nodup) (dt : Date) (s : State) (h : 
     · simp [hi]
     · simp only [hi, if_false]; exact h.idle i
 
+/-! ### the second half of a day (take → deploy → update) in explicit form -/
+
+def planKeys (c : Cfg) (s1 : State) : List Nat :=
+  dictKeys ((s1.q.entries.take (takeCount c s1.q)).map (·.site))
+
+def waiting (c : Cfg) (s1 : State) : Queue :=
+  { s1.q with entries := s1.q.entries.drop (takeCount c s1.q) }
+
+def deployed (c : Cfg) (d : DayIn) (s1 : State) : Nat → PlannerS :=
+  fun i => if i ∈ planKeys c s1 then applyOutcome (c.P i) (d.out i) (s1.pl i) else s1.pl i
+
+def finishDay (c : Cfg) (d : DayIn) (s1 : State) : State :=
+  { q := putAll (waiting c s1) (requeueItems c.kind (deployed c d s1) (planKeys c s1)),
+    pl := fun i => if i ∈ planKeys c s1 ∧ isComplete (deployed c d s1 i) = true
+                   then finish d.date.y (deployed c d s1 i) else deployed c d s1 i,
+    crashed := s1.crashed ||
+      (planKeys c s1).any (fun i => isComplete (deployed c d s1 i) && !decide (d.date.y ∈ (c.P i).simYears) &&
+        decide (c.kind ≠ .followup)) }
+
+theorem scheduleDay_eq (c : Cfg) (d : DayIn) (s : State) :
+    scheduleDay c d s = finishDay c d (requestPhase c d.date s) := by
+  simp only [scheduleDay, dayTrace, takeN_eq, finishDay, foldl_requeue_eq, planKeys, waiting, deployed]
+
+theorem dayTrace_keys (c : Cfg) (d : DayIn) (s : State) :
+    (dayTrace c d s).keys = planKeys c (requestPhase c d.date s) := by
+  simp only [dayTrace, takeN_eq, planKeys]
+
+theorem dayTrace_afterDeploy (c : Cfg) (d : DayIn) (s : State) :
+    (dayTrace c d s).afterDeploy = deployed c d (requestPhase c d.date s) := by
+  simp only [dayTrace, takeN_eq, planKeys, deployed]
+
+theorem dayTrace_remaining (c : Cfg) (d : DayIn) (s : State) :
+    (dayTrace c d s).remaining = waiting c (requestPhase c d.date s) := by
+  simp only [dayTrace, takeN_eq, waiting]
+
+theorem dayTrace_taken (c : Cfg) (d : DayIn) (s : State) :
+    (dayTrace c d s).taken =
+      (requestPhase c d.date s).q.entries.take (takeCount c (requestPhase c d.date s).q) := by
+  simp only [dayTrace, takeN_eq]
+
+/-- with distinct outstanding requests the work plan is the list of taken sites -/
+theorem planKeys_eq (c : Cfg) (s1 : State) (h : Inv s1) :
+    planKeys c s1 = (s1.q.entries.take (takeCount c s1.q)).map (·.site) := by
+  unfold planKeys
+  apply dictKeys_nodup
+  have : ((s1.q.entries.take (takeCount c s1.q)).map (·.site)).Sublist s1.q.sites :=
+    (List.take_sublist _ _).map _
+  exact h.nodup.sublist this
+
+theorem sites_split (c : Cfg) (s1 : State) (h : Inv s1) :
+    s1.q.sites = planKeys c s1 ++ (waiting c s1).sites := by
+  rw [planKeys_eq c s1 h]
+  unfold waiting Queue.sites
+  rw [← List.map_append, List.take_append_drop]
+
+theorem applyOutcome_queued (p : PlannerP) (o : Outcome) (s : PlannerS) :
+    (applyOutcome p o s).queued = s.queued := by
+  unfold applyOutcome; cases o <;> rfl
+
+theorem applyOutcome_complete_false (p : PlannerP) (o : Outcome) (s : PlannerS)
+    (hs : isComplete s = false) (ho : o ≠ .completed) : isComplete (applyOutcome p o s) = false := by
+  unfold applyOutcome isComplete at *
+  cases o with
+  | completed => exact absurd rfl ho
+  | progressed m => cases hr : s.rep <;> simp_all
+  | untouched => cases hr : s.rep <;> simp_all
+
+theorem inv_finishDay (c : Cfg) (d : DayIn) (s1 : State) (h : Inv s1) : Inv (finishDay c d s1) := by
+  have hsplit := sites_split c s1 h
+  have hnd := h.nodup
+  rw [hsplit, List.nodup_append] at hnd
+  have hw : QWF (waiting c s1) := qwf_drop s1.q h.qwf _
+  have hspec := putAll_spec (waiting c s1) hw (requeueItems c.kind (deployed c d s1) (planKeys c s1))
+  have hsites := putAll_sites (waiting c s1) hw (requeueItems c.kind (deployed c d s1) (planKeys c s1))
+  have hitems : (requeueItems c.kind (deployed c d s1) (planKeys c s1)).map (·.2.2)
+      = (planKeys c s1).filter (fun i => !isComplete (deployed c d s1 i)) := by
+    unfold requeueItems; simp [List.map_map, Function.comp_def]
+  rw [hitems] at hsites
+  have hwaitmem : ∀ e ∈ (waiting c s1).entries, e ∈ s1.q.entries := fun e he => List.mem_of_mem_drop he
+  have hdisj : ∀ i, i ∈ planKeys c s1 → i ∈ (waiting c s1).sites → False := fun i a b => hnd.2.2 i a i b rfl
+  have hmemq : ∀ i, i ∈ s1.q.sites ↔ i ∈ planKeys c s1 ∨ i ∈ (waiting c s1).sites := by
+    intro i; rw [hsplit, List.mem_append]
+  have hdq : ∀ i, (deployed c d s1 i).queued = (s1.pl i).queued := by
+    intro i; unfold deployed; by_cases hi : i ∈ planKeys c s1 <;> simp [hi, applyOutcome_queued]
+  unfold finishDay
+  refine ⟨hspec.1, ?_, ?_, ?_, ?_, ?_⟩
+  · rw [hsites.nodup_iff, List.nodup_append]
+    refine ⟨hnd.2.1, hnd.1.sublist List.filter_sublist, ?_⟩
+    intro a ha b hb hab
+    subst hab
+    exact hdisj a (List.mem_filter.1 hb).1 ha
+  · intro i
+    simp only
+    rw [hsites.mem_iff, List.mem_append, List.mem_filter]
+    by_cases hk : i ∈ planKeys c s1
+    · cases hcpl : isComplete (deployed c d s1 i)
+      · simp only [hk, hcpl, true_and, Bool.false_eq_true, and_false, if_false, Bool.not_false, and_true]
+        rw [hdq, h.flag i, hmemq]
+        simp [hk]
+      · simp only [hk, hcpl, and_self, if_true, finish, Bool.false_eq_true, Bool.not_true, and_false, or_false,
+          false_iff]
+        exact hdisj i hk
+    · simp only [hk, false_and, if_false, or_false]
+      rw [hdq, h.flag i, hmemq]
+      simp [hk]
+  · intro e he
+    simp only
+    have he' := (hspec.2.1.mem_iff).1 he
+    rw [List.mem_append] at he'
+    rcases he' with he' | he'
+    · have hes : e.site ∈ (waiting c s1).sites := (mem_sites_iff _ _).2 ⟨e, he', rfl⟩
+      have hnk : e.site ∉ planKeys c s1 := fun hk => hdisj _ hk hes
+      simp only [hnk, false_and, if_false, deployed]
+      exact h.cls1 e (hwaitmem e he')
+    · have hit := stamp_item _ _ e he'
+      unfold requeueItems at hit
+      simp only [List.mem_map, List.mem_filter] at hit
+      obtain ⟨i, ⟨hik, hinc⟩, hieq⟩ := hit
+      have h1 : e.cls = requeueClass (deployed c d s1 i) := by injection hieq with a b; exact a.symm
+      have h2 : e.site = i := by injection hieq with a b; injection b with b1 b2; exact b2.symm
+      have hinc' : isComplete (deployed c d s1 i) = false := by simpa using hinc
+      rw [h1, h2]
+      simp only [hik, hinc', true_and, Bool.false_eq_true, if_false]
+      unfold requeueClass
+      cases hip : inProgress (deployed c d s1 i) <;> simp [prioUnfinished, prioUnattended]
+  · intro i
+    simp only
+    by_cases hk : i ∈ planKeys c s1
+    · cases hcpl : isComplete (deployed c d s1 i)
+      · simp [hk, hcpl]
+      · simp [hk, hcpl, finish, isComplete]
+    · simp only [hk, false_and, if_false, deployed]
+      exact h.notComplete i
+  · intro i
+    simp only
+    by_cases hk : i ∈ planKeys c s1
+    · cases hcpl : isComplete (deployed c d s1 i)
+      · simp only [hk, hcpl, true_and, Bool.false_eq_true, if_false]
+        intro hq
+        rw [hdq] at hq
+        have := (h.flag i).2 ((hmemq i).2 (Or.inl hk))
+        rw [hq] at this
+        exact Bool.noConfusion this
+      · simp [hk, hcpl, finish]
+    · simp only [hk, false_and, if_false, deployed]
+      exact h.idle i
+
+theorem inv_scheduleDay (c : Cfg) (hc : c.sites.Nodup) (d : DayIn) (s : State) (h : Inv s) :
+    Inv (scheduleDay c d s) := by
+  rw [scheduleDay_eq]
+  exact inv_finishDay c d _ (inv_request c hc d.date s h)
+
 end LdarModel.Sched
